@@ -133,7 +133,7 @@ def run(ctx):
                 got[x.conds[-1][1]] = x.value_str()
         CS = 'io_loop::connection_state::ConnectionState::'
         r.eq('result:ServerClosing', got.get(CS + 'ServerClosing(_)'),
-             'errors::ServerClosedConnectionSnafu::fail(errors::ServerClosedConnectionSnafu{code: state.ServerClosing.0.reply_code, message: state.ServerClosing.0.reply_text})', site)
+             'errors::ServerClosedConnectionSnafu::fail(errors::ServerClosedConnectionSnafu{code: $m0.ServerClosing.0.reply_code, message: $m0.ServerClosing.0.reply_text})', site)
         r.eq('result:ClientClosed', got.get(CS + 'ClientClosed'), 'Ok(())', site)
         r.eq('result:ClientException', got.get(CS + 'ClientException'), 'errors::ClientExceptionSnafu::fail(errors::ClientExceptionSnafu)', site)
         # has_data_to_write = !outbuf.is_empty()
